@@ -269,7 +269,8 @@ impl<T: BitRead> PackedRead for T {
             // 16.11
             (
                 self.read_length_determinant(lower_bound_size, upper_bound_size)?,
-                true,
+                // a constrained length (upper bound below 64K) is never fragmented
+                upper_bound >= LENGTH_64K,
             )
         };
 
@@ -340,7 +341,8 @@ impl<T: BitRead> PackedRead for T {
             // 17.8
             (
                 self.read_length_determinant(lower_bound_size, upper_bound_size)?,
-                true,
+                // a constrained length (upper bound below 64K) is never fragmented
+                upper_bound >= LENGTH_64K,
             )
         };
 
